@@ -711,7 +711,11 @@ pub mod locks {
 
     fn record(kind: &'static str, lock: Held, held: Vec<Held>) {
         if ENABLED.load(Ordering::Relaxed) {
-            let thread = std::thread::current().name().unwrap_or("").to_string();
+            let cur = std::thread::current();
+            let thread = match cur.name() {
+                Some(n) => n.to_string(),
+                None => format!("tid-{:?}", cur.id()),
+            };
             LOG.lock().push(LockEvent { thread, kind, lock, held });
         }
     }
